@@ -127,17 +127,41 @@ PROPS = {
                      'ld_abs/ld_ind: immediate >= 0 (the JIT uses a signed disp32, the interpreter an unsigned add)'],
     ),
     'C12': dict(
-        title='Compiling any verified program returns Ok or Err and never panics or overruns (x86-64 JIT part)',
+        title='Compiling any verified program returns Ok or Err and never panics or overruns',
         parts=[
             Part('jit', lambda h: h.startswith('arm_') or h in ('resolve_jumps_contract', 'map_register_contract', 'epilogue_contract') or h.startswith('prologue_'),
                  lambda h, c, info=None: (in_file(c, 'src/jit.rs') and kani.is_panic_check(c)) or (in_file(c, 'src/shadow.rs') and ('shadow Vec' in desc(c) or 'index out of bounds: the len' in desc(c)))
                  or any(k in desc(c) for k in ('counting pass sizes', 'emitted bytes stay inside', 'fails only for an unregistered', 'both passes agree', 'pc_locs[pc]', 'resolve_jumps succeeds', 'pc_locs indexed', 'no other byte changes', 'rel32 =')),
                  'per opcode: no panic in the arm / encoders / map_register under the verifier facts; the counting pass (write_enabled = false) advances offset exactly like the emission pass (so the buffer sized by pass 1 fits pass 2 and the emit_bytes! assert is unreachable); compile error only for an unregistered helper; resolve_jumps indexes pc_locs in range and touches only the 4 displacement bytes'),
+            Part('clif', lambda h: True,
+                 lambda h, c, info=None: (in_file(c, 'src/cranelift.rs') and kani.is_panic_check(c)) or 'placeholder message' in desc(c) or 'cranelift:' in desc(c) or 'cranelift verifier' in desc(c)
+                 or any(k in desc(c) for k in ('every block', 'compiles', 'sealed and finalized', 'emitted into a block')),
+                 'Cranelift: no panic in CraneliftCompiler::{new, compile_function, build_cfg, prepare_jump_blocks, prelude, translate_program} for a verified instruction; builder discipline (no instruction after a terminator, no unterminated block, operand types) which is what makes define_function().unwrap() succeed; BOUNDED: 3-instruction CFG shapes'),
         ],
         level_text='Proof per instruction for the x86-64 JIT; repeatability = the emitted bytes are a function of (instruction, pc, helper address), which is what the C03 obligations state. Cranelift part: not covered (see not-claimed note).',
-        assumptions=['Cranelift compilation (build_cfg, block discipline, define_function) is NOT covered by this check',
+        assumptions=['Cranelift: block discipline beyond 3-instruction shapes is not explored (bounded); define_function / finalize_definitions themselves are Cranelift code (trusted)',
                      'JitMemory::new: page rounding, allocation and mprotect are not executed by the verifier',
                      'quick tier: emit_muldivmod arms run in the thorough tier only'],
+    ),
+    'C04': dict(
+        title='Cranelift-compiled code computes the same result as the interpreter',
+        parts=[
+            Part('clif', lambda h: h.startswith('clif_'),
+                 lambda h, c, info=None: ('ensures:' in desc(c) and 'trap <=>' not in desc(c) and 'trap precedes' not in desc(c)) or (in_file(c, 'src/cranelift.rs') and kani.is_panic_check(c)),
+                 'per opcode: cranelift.rs (compiled verbatim against the stub cranelift_* crates, IR evaluated eagerly) leaves the register file / branch target / data access / helper call that spec_step prescribes; a program containing an eBPF-to-eBPF call is refused; an unregistered helper id is a compile-time error'),
+        ],
+        level_text='Per-instruction proof against the same ISA spec as C01/C03, with the Cranelift IR semantics ASSUMED as written in /verif/stubs; CFG wiring beyond the shapes of bounded_clif_cfg3_* is not explored.',
+        assumptions=['Cranelift 0.127 IR semantics = /verif/stubs/clif-core (trusted), Cranelift code generation trusted', 'instruction under test at pc 0'],
+    ),
+    'C11': dict(
+        title='Cranelift-compiled code never touches memory outside the program regions',
+        parts=[
+            Part('clif', lambda h: h.startswith('clif_') and any(h[5:].startswith(m) for m in ('ld_abs', 'ld_ind', 'ld_b', 'ld_h', 'ld_w', 'ld_dw_reg', 'st_')),
+                 lambda h, c, info=None: any(k in desc(c) for k in ('trap <=>', 'trap precedes', 'exactly one access', 'emits its access')),
+                 'per memory opcode, all addresses / widths / region layouts: the emitted bounds check traps iff some byte of the access is outside packet data, metadata buffer and the 512-byte stack, and the trap precedes the access'),
+        ],
+        level_text='Complete per-opcode proof of insert_bounds_check + reg_load/reg_store/reg_atomic_add + the ld_abs/ld_ind address arm against the stub IR semantics.',
+        assumptions=['trapz stops execution before the following instruction (Cranelift semantics, trusted)', 'an empty buffer is passed as a null pointer (lib.rs wrappers, C09)'],
     ),
     'C05': dict(
         title='A verifier-accepted program never crashes the interpreter',
@@ -189,6 +213,10 @@ PROPS = {
                  'CALL imm: table consulted with key imm as u32; registered => called exactly once with (r1..r5), r0 = result, every other register unchanged; unregistered => Err and no call'),
             Part('interp', lambda h: is_step(h) and h != 'step_call', ens('helper called exactly'),
                  'no other instruction calls a helper'),
+            Part('vmapi', lambda h: h == 'mbuff_register', lambda h, c, info=None: 'ensures:' in desc(c),
+                 'register_helper: the function registered under an id is the one most recently registered for it; other ids keep theirs'),
+            Part('clif', lambda h: h == 'clif_call', lambda h, c, info=None: 'ensures:' in desc(c),
+                 'Cranelift CALL: helper called once with (r1..r5), result in r0, unknown id / non-helper call => compile error'),
             Part('jit', lambda h: h == 'arm_call_helper' or h.startswith('prologue_'), lambda h, c, info=None: 'ensures:' in desc(c),
                  'JIT CALL imm against the x86 semantics: callee = function registered under imm as u32, (r1..r5) in rdi,rsi,rdx,rcx,r8, r6-r10 in callee-saved registers, unregistered id => compile error; rsp is 0 modulo 16 inside the generated code (prologue) and stays so across local calls'),
         ],
@@ -287,6 +315,8 @@ PROPS = {
             Part('interp', lambda h: h in ('step_st_w_xadd', 'step_st_dw_xadd'),
                  any_of(ens('Ok/Err/exit value', 'memory access log', 'register file equals'), panics_in(INTERP_SRC)),
                  'aligned & allowed => exactly one AtomicAdd(addr, width, src truncated) and nothing else; misaligned => Err with empty access log'),
+            Part('clif', lambda h: h in ('clif_st_w_xadd', 'clif_st_dw_xadd'), lambda h, c, info=None: 'ensures:' in desc(c),
+                 'Cranelift: a single atomic_rmw Add of the right width and value, after the bounds check'),
             Part('jit', lambda h: h in ('arm_st_w_xadd', 'arm_st_dw_xadd'), lambda h, c, info=None: 'ensures:' in desc(c),
                  'JIT: the bytes decode to exactly one `lock add [dst+off], src` of the right width (the f0 prefix is part of the obligation)'),
         ],
